@@ -318,8 +318,17 @@ func suiteNats(tier string, rg *rng) func(emit func(pureCase)) {
 						}
 						time.Sleep(time.Millisecond)
 					}
+					// payloads of every JSON kind (an event payload may be null, true, false, a string,
+					// …): the adapter must hand every one of them to the subscription, in order
+					evPayloads := []string{`null`, `true`, `false`, `"text"`, `{"a":1}`, `[1]`, `timeout:"1"`, `x`, ``}
+					var wantEvs []string
 					for i := 0; i < 20; i++ {
-						f.deliver("event.res.change", []byte(strconv.Itoa(i)), false)
+						pl := strconv.Itoa(i)
+						if i%2 == 1 {
+							pl = evPayloads[(i/2)%len(evPayloads)]
+						}
+						wantEvs = append(wantEvs, pl)
+						f.deliver("event.res.change", []byte(pl), false)
 					}
 					time.Sleep(2300 * time.Millisecond)
 					mu.Lock()
@@ -342,7 +351,7 @@ func suiteNats(tier string, rg *rng) func(emit func(pureCase)) {
 						emit(pureCase{line: "nats-long", impl: "subjectTooLong", noModel: true, class: "too-long"})
 					}
 					order := strings.Join(evs, ",")
-					want := "0,1,2,3,4,5,6,7,8,9,10,11,12,13,14,15,16,17,18,19"
+					want := strings.Join(wantEvs, ",")
 					ec := pureCase{line: "nats-events", impl: order, noModel: true, class: "event-order"}
 					if serr != nil || order != want {
 						ec.specErr = fmt.Sprintf("events not delivered in publish order: %s (subscribe error: %v)", order, serr)
